@@ -451,7 +451,13 @@ def gen_update_buffer_case(rng, ty=None, mode=None):
     mode = rng.choice(['separate', 'keep'] + (['same'] if ty == b.TY['ratio'] else [])) if mode is None else mode
     obs = b.gen_obs_list(rng, ty, cn, rng.randint(2, 4), b.pick_scale(rng))
     if mode == 'same':
-        obs = [[v if Fraction(v) != 0 else '3', v if Fraction(v) != 0 else '3'] for v, _ in obs]
+        # one buffer is both value and total: the total of a RATIO result is a count / a positive weight, so the
+        # common value is made positive (a negative total could make the accumulated total 0: get_result() then
+        # divides by zero, which is the library's documented behaviour for an empty total, not a finding)
+        def pos(v):
+            f = abs(Fraction(v))
+            return str(f) if f != 0 else '3'
+        obs = [[pos(v), pos(v)] for v, _ in obs]
     if ty == b.TY['choice']:
         obs = [[v, '-'] for v, _ in obs]
     return {'ty': ty, 'acc': rng.chance(0.6), 'cn': cn, 'mode': mode, 'obs': obs, 'int': rng.chance(0.5) or ty == 3}
